@@ -24,8 +24,8 @@ UNIT = "C01_expr"
 
 META_PART = {
     "unit": UNIT,
-    "technique": "Coq proof (value preservation of the transcribed emitter by induction over expressions, operator tables regenerated from parser.py and checked by reflection, one refuted theorem per guard clause) + extracted-model correspondence with the real _to_c_expr text and with the real emitted firmware under g++/mock core + firmware-vs-CPython oracle inside the extracted guard",
-    "level_text": "Theorems C01_* of coq/Props/C01_expr.v are proved for all expressions, environments and inputs about Gallina models of emit (ToC.v), of the emitted C++ (CSem.v: 32-bit int with explicit range guard, exact-rational float, Arduino macros) and of CPython (PySem.v); the tables _BIN/_UN/_CMP are regenerated from parser.py on every run; the models are run against the real _to_c_expr, the real firmware and CPython on generated expressions.",
+    "technique": "Coq proof (value preservation of the transcribed emitter by induction over expressions, operator tables regenerated from parser.py - the emitted form of every binary operator probed on parser._emit_binop - and checked by reflection, one refuted theorem per guard clause, positive theorems for the repaired // % **) + extracted-model correspondence with the real _to_c_expr text and with the real emitted firmware under g++/mock core + firmware-vs-CPython oracle inside the extracted guard",
+    "level_text": "Theorems C01_* of coq/Props/C01_expr.v are proved for all expressions, environments and inputs about Gallina models of emit (ToC.v), of the emitted C++ (CSem.v: 32-bit int with explicit range guard, exact-rational float, Arduino macros) and of CPython (PySem.v); the tables _BIN/_UN/_CMP and the form in which _emit_binop emits each operator (infix / helper template / rejected) are regenerated from parser.py on every run; the models are run against the real _to_c_expr, the real firmware and CPython on generated expressions.",
     "level_note": "Trusted: Coq kernel, translator harness/gen/optables.py, extraction, OCaml driver, g++ and the mock Arduino core as the definition of the device (int = 32 bit there; AVR's 16 bit int is not modelled), CPython 3.12 as the definition of Python. Floats are exact rationals in the models; generated floats are dyadic so that binary rounding does not show. Lists, subscripts, comprehensions, methods, user functions are outside the transcribed fragment (NotModelled, counted).",
     "design_ref": "DESIGN.md section 4 C01, Appendix B",
 }
@@ -113,10 +113,10 @@ class Gen:
             return f"({self.int_(d - 1)} {'+' if k == 'add' else '-'} {self.int_(d - 1)})"
         if k == "mul":
             return f"({self.int_(d - 1)} * {r.choice(['2', '3', '-1', 'b', '10', self.int_(d - 2)])})"
-        if k == "floordiv":
-            return f"({self.int_(d - 1)} // {r.choice(['b', '2', '3', '7', '(-2)', self.int_(d - 1)])})"
-        if k == "mod":
-            return f"({self.int_(d - 1)} % {r.choice(['b', '2', '3', '7', '(-3)', self.int_(d - 1)])})"
+        if k == "floordiv":      # operands of either sign (repaired: F-C01-floordiv); a bool operand is an int operand
+            return f"({self.int_(d - 1)} // {r.choice(['b', '2', '3', '7', '(-2)', '(-3)', '(-7)', '(-1)', '(t + 1)', self.int_(d - 1)])})"
+        if k == "mod":           # (repaired: F-C01-mod-sign)
+            return f"({self.int_(d - 1)} % {r.choice(['b', '2', '3', '7', '(-3)', '(-2)', '(-7)', '(-1)', '(t + 2)', self.int_(d - 1)])})"
         if k == "bit":
             return f"({self.int_(d - 1)} {r.choice(['&', '|', '^'])} {self.int_(d - 1)})"
         if k == "shift":
@@ -146,7 +146,7 @@ class Gen:
         if d <= 0 or r.random() < 0.15:
             return self.atom("float")
         if r.random() < self.risky:
-            k = r.choice(["cond-mixed", "truediv-int", "minmax-mixed", "floordiv-float"])
+            k = r.choice(["cond-mixed", "truediv-int", "minmax-mixed", "pow-float"])
             self.note("risky:" + k)
             if k == "cond-mixed":
                 return f"({self.int_(d - 1)} if {self.bool_(d - 1)} else {self.float_(d - 1)})"
@@ -154,10 +154,21 @@ class Gen:
                 return f"({self.int_(d - 1)} / {self.int_(d - 1)})"
             if k == "minmax-mixed":
                 return f"{r.choice(['min', 'max'])}({self.int_(d - 1)}, {self.float_(d - 1)})"
-            return f"({self.float_(d - 1)} // {r.choice(['2', '0.5', '3'])})"
+            return f"({self.float_(d - 1)} ** 2)"
         k = r.choice(["add", "sub", "mul", "div-pow2", "div", "float-int", "float-bool", "abs", "minmax", "neg", "ifexp",
-                      "add", "div-pow2"])
+                      "add", "div-pow2", "floordiv", "mod", "floordiv", "mod"])
         self.note("f:" + k)
+        if k in ("floordiv", "mod"):
+            # // and % with a float operand (repaired: F-C01-floordiv float clause, F-C01-mod-float): float // num, num // float,
+            # float % num, num % float, divisors of either sign, dyadic so that the exact-rational model and binary64 agree
+            o = "//" if k == "floordiv" else "%"
+            dv = r.choice(["2", "0.5", "3", "(-2)", "(-0.5)", "1.5", "(-1.5)", "4.0", "b", "(-0.25)", "2.5"])
+            form = r.choice([0, 0, 1, 2])
+            if form == 0:
+                return f"({self.float_(d - 1)} {o} {dv})"
+            if form == 1:
+                return f"({self.int_(d - 1)} {o} {r.choice(['0.5', '(-0.5)', '1.5', '(-2.5)', '4.0', 'f'])})"
+            return f"({self.float_(d - 1)} {o} {self.num(d - 1)})"
         if k in ("add", "sub"):
             return f"({self.float_(d - 1)} {'+' if k == 'add' else '-'} {self.num(d - 1)})"
         if k == "mul":
@@ -249,6 +260,24 @@ class Gen:
     def expr(self, d):
         ty = self.rng.choice(["int", "int", "float", "bool", "str"])
         return ty, {"int": self.int_, "float": self.float_, "bool": self.bool_, "str": self.str_}[ty](d)
+
+
+# // and % on every combination of signs, exact and inexact division, int / bool / float operands in both positions, the
+# augmented-assignment spellings are covered by the statement layer (progen feature `div`); run on every environment of
+# DIV_ENVS in every tier (the region the guards of F-C01-floordiv / F-C01-mod-sign / F-C01-mod-float used to exclude)
+DIV_CORPUS = [
+    ("int", "a // b"), ("int", "a % b"), ("int", "a // 2"), ("int", "a % 3"), ("int", "a // (-2)"), ("int", "a % (-3)"),
+    ("int", "(-a) // b"), ("int", "(-a) % b"), ("int", "(a // b) * b + a % b"), ("int", "a // (t + 1)"), ("int", "t % b"),
+    ("int", "(a * 3 + 1) // (b * 2)"), ("int", "(a - 1) % (b * 5)"), ("int", "a // b // 2"), ("int", "a % b % 2"),
+    ("int", "-(a // b)"), ("int", "-a // b"), ("int", "abs(a) // abs(b)"), ("int", "int(s) // 3"), ("int", "a % int(s)"),
+    ("float", "f // 2"), ("float", "f % 2"), ("float", "f // b"), ("float", "f % b"), ("float", "a // 0.5"), ("float", "a % 2.5"),
+    ("float", "f // (-0.5)"), ("float", "f % (-1.5)"), ("float", "b // f"), ("float", "b % f"), ("float", "(f // b) * b + f % b"),
+    ("float", "f // 0.25 % 3"), ("float", "(f + 0.5) % (b / 2.0)"), ("float", "t // 0.5"), ("float", "7.75 % f"),
+    ("bool", "a % 2 == 1"), ("bool", "a // b < 0"), ("bool", "0 <= a % b < b"), ("bool", "f % 1 == 0.0"),
+    ("str", "str(a // b)"), ("str", 'f"{a % b}"'),
+]
+DIV_ENVS = [(-7, 2), (-7, -2), (7, -2), (7, 2), (-8, 4), (8, -4), (-1, 3), (1, -3), (-7, -3), (13, 5), (-300, 7), (723, -8),
+            (2, 3), (-2, 3), (-1, -1), (100, -3)]
 
 
 # ------------------------------------------------------------------ scripts
@@ -412,16 +441,29 @@ def run_unit(ctx: C.Ctx):
 
     # ---------------- model evaluation of the typed expressions in sampled environments
     items = []          # (src, ty, (a, b), decoded model output)
+    corpus_envs = DIV_ENVS if thorough else DIV_ENVS[:8]
+    corpus = [(ty, s2, ab) for ab in corpus_envs for ty, s2 in DIV_CORPUS]
+    n_corpus = len(corpus)
     if exe:
-        envs = [(rng.choice(A_VALUES), rng.choice(B_VALUES)) for _ in typed]
-        mo = ctx.model([case1(env_of(a, b), s) for (ty, s), (a, b) in zip(typed, envs)], unit=UNIT)
-        for (ty, s), ab, m in zip(typed, envs, mo):
+        envs = [ab for _, _, ab in corpus] + [(rng.choice(A_VALUES), rng.choice(B_VALUES)) for _ in typed]
+        allx = [(ty, s2) for ty, s2, _ in corpus] + typed
+        mo = ctx.model([case1(env_of(a, b), s) for (ty, s), (a, b) in zip(allx, envs)], unit=UNIT)
+        for (ty, s), ab, m in zip(allx, envs, mo):
             items.append((s, ty, ab, dec_case1(m)))
     mstat = {"generated": len(items), "translated": 0, "peval_ok": 0, "ceval_ok": 0, "ceval_stuck": 0, "ceval_undef": 0,
-             "in_guard": 0, "in_guard_small": 0, "guard_but_no_value": 0}
+             "in_guard": 0, "in_guard_small": 0, "guard_but_no_value": 0, "div_corpus": n_corpus, "div_corpus_in_guard": 0}
     runnable = []
-    for it in items:
+    corpus_run = []
+    for pos, it in enumerate(items):
         d = it[3]
+        if pos < n_corpus:
+            # the corpus lies inside the repaired region: every case must translate, have a value on both sides and be inside
+            # expr_guard (a case that is not is a broken model / guard, reported - never silently skipped)
+            if d["tr"][0] == "ok" and d["py"][0] == "ok" and d["c"][0] == "ok" and d["guard"]:
+                mstat["div_corpus_in_guard"] += 1
+                corpus_run.append(it)
+            else:
+                ctx.disagree("model: a // / % corpus case is not inside expr_guard with a value on both sides", it[:3], "translated, guard, values", [d["tr"], d["guard"], d["py"], d["c"]])
         mstat["translated"] += d["tr"][0] == "ok"
         mstat["peval_ok"] += d["py"][0] == "ok"
         mstat["ceval_ok"] += d["c"][0] == "ok"
@@ -436,7 +478,7 @@ def run_unit(ctx: C.Ctx):
             elif not vrel_model(d["py"][1], d["c"][1]):
                 mstat["guard_but_unrelated"] = mstat.get("guard_but_unrelated", 0) + 1
                 ctx.disagree("model: inside expr_guard but the C value is not vrel-related to the Python value (contradicts C01_expr_preserve_partial)", it[:3], d["py"], d["c"])
-        if d["tr"][0] == "ok" and d["py"][0] == "ok" and d["c"][0] == "ok":
+        if pos >= n_corpus and d["tr"][0] == "ok" and d["py"][0] == "ok" and d["c"][0] == "ok":
             runnable.append(it)
     dist["model_eval"] = mstat
 
@@ -450,6 +492,17 @@ def run_unit(ctx: C.Ctx):
             groups.append((ab, lst[i:i + per_group]))
     rng.shuffle(groups)
     groups = groups[: n_sketch * groups_per_sketch]
+    # the // / % corpus always runs, in sketches of its own, before the sampled groups
+    cgroups = []
+    cby = {}
+    for it in corpus_run:
+        cby.setdefault(it[2], []).append(it)
+    for ab, lst in cby.items():
+        for i in range(0, len(lst), per_group):
+            cgroups.append((ab, lst[i:i + per_group]))
+    while len(cgroups) % groups_per_sketch:
+        cgroups.append(cgroups[-1][:1] + ([],))
+    groups = cgroups + groups
     scripts, meta = [], []
     cid = 0
     for i in range(0, len(groups), groups_per_sketch):
@@ -550,14 +603,14 @@ def run_unit(ctx: C.Ctx):
     cov.update({
         "evaluations": n_eval,
         "distinct_nontrivial": len({s for s in text_srcs if any(c in s for c in "+-*/%<>=&|^( ")}) + len({(it[0], it[2]) for mm in meta for it in mm.values()}),
-        "rule": "text tie: seeded pyast_wire.gen_expr expressions (all node kinds, mostly ill-typed mixes, depth 1-4) + typed expressions + a fixed list of special forms, non-trivial = contains an operator or call; behaviour/oracle: typed generator (ints a b, float f=a/4.0, bool t=a>0, str s=str(b), depth 1-4, ~8% constructs outside the guard), environments a in A_VALUES x b in B_VALUES fed through analog_read, each (expression, environment) pair distinct; only expressions with a Python value and a model C value are put into sketches (40 per sketch, marker lines); the oracle (c) uses only those inside the extracted expr_guard whose float values are small dyadics",
+        "rule": "text tie: seeded pyast_wire.gen_expr expressions (all node kinds, mostly ill-typed mixes, depth 1-4) + typed expressions + a fixed list of special forms, non-trivial = contains an operator or call; behaviour/oracle: typed generator (ints a b, float f=a/4.0, bool t=a>0, str s=str(b), depth 1-4, ~8% constructs outside the guard; // and % with divisors of either sign, bool and float operands in both positions), a fixed // / % corpus (DIV_CORPUS x DIV_ENVS: every sign combination, exact and inexact division, int/bool/float operands; all of it must be inside expr_guard and is always run), environments a in A_VALUES x b in B_VALUES fed through analog_read, each (expression, environment) pair distinct; only expressions with a Python value and a model C value are put into sketches (40 per sketch, marker lines); the oracle (c) uses only those inside the extracted expr_guard whose float values are small dyadics",
         "samples": [text_srcs[0], text_srcs[len(loose)], typed[0][1], typed[1][1]] + [it[0] for it in runnable[:3]],
         "distribution": {**dist, "typed_kinds": dict(sorted(gen.kinds.items()))},
-        "guard": "expr_guard (coq/Lang/ToC.v, extracted): // and % on ints of equal sign or exact division, // on floats only with integral quotient, % not on floats, / with a float operand, no **, shift counts 0..31, and/or on bool operands only, both branches of a conditional / both arguments of min/max of the same kind (int-like or float or str), str()/f-string of int or str only (no bool, no float), no literal+literal / literal-compare, int(<str>) only of a String object or a single literal, len() of ASCII text, every int result within 32 bit, names bound to scalars; harness adds: float values small dyadics (binary rounding unmodelled)",
+        "guard": "expr_guard (coq/Lang/ToC.v, extracted): // and % on any numeric operands (int, bool, float, any signs; Python defines the value, so the divisor is not 0), / with a float operand, ** never translated (rejected), shift counts 0..31, and/or on bool operands only, both branches of a conditional / both arguments of min/max of the same kind (int-like or float or str), str()/f-string of int or str only (no bool, no float), no literal+literal / literal-compare, int(<str>) only of a String object or a single literal, len() of ASCII text, every int result within 32 bit, names bound to scalars; harness adds: float values small dyadics (binary rounding unmodelled)",
         "unmodelled": ["list literals, subscripts, comprehensions, method calls (device getters, list methods), user function calls: to_c answers NotModelled (counted in distribution.text_tie.not_modelled)",
                        "16-bit int of AVR (fits is 32 bit, the width of the g++/mock build)", "binary rounding of float/double (exact rationals; generated floats are dyadic)",
                        "float constants whose str() is not a short positional decimal (exponent form, 0.1)", "String.toFloat, String + number, non-printable pin strings",
-                       "order of evaluation of C++ operands other than left-to-right", "min/max with three or more arguments are translated and run (tie b) but outside the proved guard"],
+                       "order of evaluation of C++ operands other than left-to-right; the two arguments of the helper calls __redu_floordiv / __redu_mod are evaluated right to left by g++ (modelled so in CSem.ceval; observable only when both operands consume readings, which the proved fragment and the generators exclude)", "min/max with three or more arguments are translated and run (tie b) but outside the proved guard"],
         "trusted_base": C.COMMON_TRUSTED + ["harness/gen/optables.py (reads _BIN/_UN/_CMP/_BUILTIN_CALL_RETURN_TYPES from the imported parser module)",
                                             "harness/impl/c01_expr_impl.py (builds env/ctx as parse() does and calls the real _to_c_expr)",
                                             "harness/impl/transpile_impl.py, mock/ (Arduino core mock, String, macros), g++ 12", "harness/impl/pyrun_impl.py + CPython 3.12 (reference trace)", "harness/impl/pyeval_impl.py (CPython eval for PySem validation)"],
@@ -585,25 +638,24 @@ SPECIAL_TEXT = [
 
 
 # ------------------------------------------------------------------ known findings
-def replay_findings(ctx, dist):
-    """Every listed witness is replayed on the real firmware and on CPython; KNOWN-FINDING iff they still differ."""
-    fs = my_findings(ctx)
-    rep = {}
+def witness_status(fs):
+    """Replays the witness of each finding on the real firmware and on CPython.
+    -> [(still_fails, why, replay)] ; replay = the script, the input and what both sides printed"""
     scripts = []
     for f in fs:
         w = f["witness"]
         body = HEADER + w.get("setup", "") + "".join(f'mon.write("##case {i}")\nmon.write({e})\n' for i, e in enumerate(w["exprs"])) + 'mon.write("##case end")\n'
         scripts.append((body, w.get("input", "")))
-    if not scripts:
-        dist["known_findings"] = {}
-        return
-    trs = fw.transpile_many([s for s, _ in scripts])
+    out = []
+    trs = fw.transpile_many([s for s, _ in scripts]) if scripts else []
     for f, (script, inp), tr in zip(fs, scripts, trs):
         w = f["witness"]
         still = False
         why = ""
+        rep = {"finding": f["id"], "script": script, "input": inp, "witness": w}
         if not tr.get("ok"):
             why = "rejected by the transpiler now (" + str(tr.get("exc")) + ")"
+            rep["transpiler"] = tr.get("exc")
         else:
             run = fw.run_sketches([{"cpp": tr["cpp"], "input": inp, "loops": 0}])[0]
             py = fw.pyrun_many([{"src": script, "input": inp, "loops": 0}])[0]
@@ -612,9 +664,11 @@ def replay_findings(ctx, dist):
             elif not run["compiled"]:
                 still = True
                 why = "accepted by the transpiler, C++ does not compile"
+                rep["compile_log"] = (run.get("compile_log") or "")[-600:]
             else:
                 fser = [e[2:] for e in run["events"] if e.startswith("S ") and not e.startswith("S ##")]
                 pser = [e[2:] for e in py["events"] if e.startswith("S ") and not e.startswith("S ##")]
+                rep["cpython"], rep["firmware"] = pser, fser
                 mode = w.get("compare", "value")
                 for i, (pe, fe) in enumerate(zip(pser, fser)):
                     same = (pe.rpartition("\t")[0] == fe) if mode == "text" else value_same("S " + pe, "S " + fe)
@@ -625,7 +679,41 @@ def replay_findings(ctx, dist):
                 if len(pser) != len(fser):
                     still = True
                     why = why or "different number of serial lines"
+        out.append((still, why, rep))
+    return out
+
+
+def replay_findings(ctx, dist):
+    """Every listed witness is replayed on the real firmware and on CPython; KNOWN-FINDING iff they still differ."""
+    fs = my_findings(ctx)
+    rep = {}
+    for f, (still, why, _) in zip(fs, witness_status(fs)):
         rep[f["id"]] = {"still_fails": still, "detail": why}
         if still:
             ctx.known(f"{f['id']}: {f['what']} [{why}]")
     dist["known_findings"] = rep
+
+
+def fixed_findings(ctx):
+    own = []
+    p = C.VERIF / "known_findings.d" / "C01_expr.json"
+    if p.exists():
+        own = json.loads(p.read_text())
+    fs = {f["id"]: f for f in own if f.get("kind") == "fixed" and "exprs" in f.get("witness", {})}
+    for f in ctx.findings:
+        if f.get("kind") == "fixed" and f.get("id") in MY_FINDINGS and "exprs" in f.get("witness", {}):
+            fs[f["id"]] = f
+    return list(fs.values())
+
+
+def replay_fixed(ctx):
+    """repaired defects (kind "fixed") suppress nothing: their witnesses are replayed FIRST, and one that fails again is a
+    VIOLATION whose replay is the witness (script, input, what CPython and the firmware printed)"""
+    fs = fixed_findings(ctx)
+    for f, (still, why, rep) in zip(fs, witness_status(fs)):
+        if still:
+            ctx.fail(f"repaired defect {f['id']} is back: {f['what']} [{why}]", rep,
+                     rep.get("cpython") or "firmware value = CPython value (or a clean rejection)",
+                     rep.get("firmware") or why, key="fixed-defect-returned:" + f["id"])
+    ctx.c01_expr_fixed = [f["id"] for f in fs]
+    return len(fs)
